@@ -71,6 +71,10 @@ def make_checker():
             else:
                 base = "Paused" if fl["paused"] else "Holding" if fl["holding"] else "Running"
                 allowed = {base} | ({"Restarting"} if restart else set())
+            if not fl["started"] and (fl["paused"] or fl["holding"]) and state in allowed:
+                # no run is active, yet the control state that is reported to the frontend says paused / on hold
+                probs.append((f"C06:state-disagrees:{state}:flags=s{'P' if fl['paused'] else 'p'}{'H' if fl['holding'] else 'h'}",
+                              f"tick {ob['n']}: System State {state} (no run active) but the control state still says {fl}"))
             if state not in allowed:
                 probs.append((f"C06:state-disagrees:{state}:flags={'S' if fl['started'] else 's'}{'P' if fl['paused'] else 'p'}{'H' if fl['holding'] else 'h'}",
                               f"tick {ob['n']}: System State {state} but control state {fl} (allowed {sorted(allowed)})"))
